@@ -1029,6 +1029,14 @@ static void list_ucikeep()
                 R.count("sessions");
                 sub.states++;
                 auto reps = board_reports(o.output);
+                // the search works on its own copy of the position: that copy must be back at the root too
+                if (g_inproc && c.first[0] == 'g' && g_uci->search && !reps.empty())
+                {
+                    std::string inner = g_uci->search->_position.fen();
+                    if (inner != reps[0].substr(0, reps[0].find(" #")))
+                        R.violation("C03:search_left_its_position_changed", mc::JObj().s("position_line", pl).s("command", c.first).n("stop_at", c.second)
+                                        .s("before", reps[0]).s("searched_position_afterwards", inner));
+                }
                 if (reps.size() != 2 || reps[0] != reps[1])
                     R.violation(std::string("C03:uci_position_changed_by:") + (c.first[0] == 'g' ? "go" : "perft"),
                                 mc::JObj().s("position_line", pl).s("command", c.first).n("stop_at", c.second).s("before", reps.empty() ? "" : reps[0]).s("after", reps.size() > 1 ? reps[1] : ""));
